@@ -74,4 +74,37 @@ func init() {
 			"independence of the chosen median value from arrival order as a theorem over multisets (follows from sortedness + half conditions; not machine-checked)",
 		},
 	})
+	reg(&PropDef{
+		ID:    "C19",
+		Title: "Privileged changes need governance; messages touch only the signer's assets",
+		Funcs: fcNP("x/oracle/keeper.msgServer.UpdateParams", "x/oracle/keeper.msgServer.UpdateCyclelist", "x/registry/keeper.msgServer.UpdateDataSpec",
+			"x/registry/keeper.msgServer.RegisterSpec", "x/reporter/keeper.msgServer.UpdateParams", "x/bridge/keeper.msgServer.UpdateSnapshotLimit",
+			"x/dispute/keeper.msgServer.UpdateTeam", "x/mint/keeper.msgServer.Init", "x/oracle/keeper.msgServer.Tip"),
+		Assumptions: []string{
+			"k.authority is the governance module address (set in app.go when the keepers are constructed)",
+			"bech32 decoding is modelled abstractly: AccAddressFromBech32(s) yields the account addr_str(s)",
+			"calls without specification (collections Walk/Clear, hooks, abi decoding) are havocked: results, memory reachable from their arguments, the store they operate on and everything their callbacks can write",
+		},
+		NotDecided: []string{
+			"the signer-only frame for the remaining message types (reporter, dispute, bridge handlers): only MsgTip is proved so far",
+			"SDK message types (bank send, staking) are not layer code",
+		},
+	})
+	reg(&PropDef{
+		ID:    "C12",
+		Title: "Dispute lifecycle, voting power and tally follow the specified rules",
+		Funcs: fcNP("x/dispute/keeper.Ratio", "x/dispute/keeper.Keeper.UpdateDispute"),
+		NotDecided: []string{
+			"status transition relation over all writers of Disputes, vote guards (once per address, only while open), power snapshots at the dispute block, group counters: not yet under contract",
+			"TallyVote's scaled sums against the formula (uses index iterators that are outside the modelled library surface)",
+		},
+	})
+	reg(&PropDef{
+		ID:    "C11",
+		Title: "Slashing takes exactly the category's share of the disputed report's stake",
+		Funcs: fcNP("x/dispute/keeper.Keeper.GetDisputeFee", "x/dispute/keeper.GetSlashPercentageAndJailDuration"),
+		NotDecided: []string{
+			"escrow apportioning over selectors and redelegations/unbondings (EscrowReporterStake), slash-at-most-once, evidence equals the stored micro-report: not yet under contract",
+		},
+	})
 }
